@@ -25,8 +25,13 @@ fn tag_numbers(own: u64) -> Vec<u64> {
     for bit in 0..16 {
         v.push(own ^ (1u64 << bit));
     }
-    v.push(own ^ (1u64 << 32));
-    v.push(own ^ (1u64 << 63));
+    for bit in 16..64 {
+        v.push(own ^ (1u64 << bit));
+    }
+    // every small tag number, the other IANA tags a decoder might "look through", and numbers
+    // derived from the own tag by arithmetic (truncation / shifting mistakes)
+    v.extend(0..=127u64);
+    v.extend([24u64, 63, 256 + own, (own << 8) | own, own << 16, (own << 16) | own, own << 32, (own << 32) | own, own + (1 << 16) * 3, own * 257, own + (1 << 8), 0x1_0000_0000 - 1 + own]);
     v.extend([0, 1, 2, 3, 4, 5, 24, 55, 61, 255, 256, 55799, 65535, 65536, 1 << 32, u64::MAX, own + 256, own + 65536, own << 8]);
     v.sort();
     v.dedup();
@@ -39,11 +44,37 @@ struct Delivery {
     kind: &'static str,
 }
 
-fn deliveries(own: u64) -> Vec<Delivery> {
+impl Delivery {
+    /// The untagged decoders reject every tagged item for one and the same reason (a tag is not an
+    /// array), so they are exercised on a representative subset of the prefixes: every registered
+    /// tag in every width, a handful of other numbers, registered double tags and all malformed
+    /// heads.  The tagged decoders see every prefix.
+    fn for_untagged(&self) -> bool {
+        let reg = |n: &u64| REG_TAGS.iter().any(|(_, r)| r == n);
+        match self.kind {
+            "tag-rewrite" => matches!(self.tags[0], 0 | 1 | 2 | 3 | 24 | 61 | 63 | 55799 | u64::MAX),
+            "double-tag" => self.tags.iter().all(reg),
+            _ => true,
+        }
+    }
+}
+
+fn deliveries(own: u64, extra: &[u64]) -> Vec<Delivery> {
     let mut out = Vec::new();
     out.push(Delivery { prefix: vec![], tags: vec![], kind: "untagged" });
-    for n in tag_numbers(own) {
+    let mut numbers = tag_numbers(own);
+    numbers.extend_from_slice(extra);
+    numbers.sort();
+    numbers.dedup();
+    for n in numbers {
+        // every head width for the registered numbers and their neighbours; for the rest the
+        // minimal width plus one wider width (which one rotates with the number)
+        let near_registered = REG_TAGS.iter().any(|(_, r)| n.saturating_add(1) >= *r && n <= *r + 1);
+        let rot = [1u8, 2, 4, 8][(n % 4) as usize];
         for w in [0u8, 1, 2, 4, 8] {
+            if !near_registered && refcbor::head_width(6, n, w).map(|h| h != refcbor::head(6, n)).unwrap_or(false) && w != rot && w != 8 {
+                continue;
+            }
             if let Some(h) = refcbor::head_width(6, n, w) {
                 let minimal = refcbor::head(6, n) == h;
                 let kind = if n == own {
@@ -72,6 +103,37 @@ fn deliveries(own: u64) -> Vec<Delivery> {
         p.extend(refcbor::head(6, n));
         out.push(Delivery { prefix: p, tags: vec![own, n], kind: "double-tag" });
     }
+    // malformed tag heads (corruption in the head's additional-information bits): the reserved
+    // values 28..30 followed by 0..64 argument bytes whose low-order bytes spell the own tag, the
+    // "indefinite" head 0xdf, and valid-width heads cut short are not the tag applied once
+    for ai in [28u8, 29, 30, 31] {
+        for n in [0usize, 1, 2, 4, 8, 16, 32, 64] {
+            let mut p = vec![0xc0 | ai];
+            let mut arg = vec![0u8; n];
+            let be = own.to_be_bytes();
+            for i in 0..n.min(8) {
+                arg[n - 1 - i] = be[7 - i];
+            }
+            p.extend(arg);
+            out.push(Delivery { prefix: p, tags: vec![], kind: "malformed-head" });
+            if n >= 16 {
+                // own tag in the high-order half instead
+                let mut p = vec![0xc0 | ai];
+                let mut arg = vec![0u8; n];
+                for i in 0..8 {
+                    arg[7 - i] = be[7 - i];
+                }
+                p.extend(arg);
+                out.push(Delivery { prefix: p, tags: vec![], kind: "malformed-head" });
+            }
+        }
+    }
+    // a tag head of every other major type's initial byte with the own tag as argument
+    for major in [0u8, 1, 2, 3, 4, 5, 7] {
+        if let Some(h) = refcbor::head_width(major, own, 1) {
+            out.push(Delivery { prefix: h, tags: vec![], kind: "malformed-head" });
+        }
+    }
     // triple: own tag thrice
     let mut p = refcbor::head(6, own);
     p.extend(refcbor::head(6, own));
@@ -94,7 +156,7 @@ impl Engine for C14 {
     fn info(&self) -> EngineInfo {
         EngineInfo {
             level: "fault_enumeration",
-            rule: "Each run is one simulated message body of a taggable type (valid, of another taggable type's shape, with an element dropped/added, or with one corrupted byte after the array head). The body is delivered with every tag prefix of the palette - none, each of ~70 tag numbers (six registered, +-1 neighbours, 18 one-bit flips of the own tag, 0, 61, 55799, 2^32, 2^64-1, ...) at every representable head width (0/1/2/4/8 argument bytes), and ~140 double tags (every palette number over and under the own tag) - to ALL six tagged and ALL six untagged decoders. evaluations = deliveries. Oracle per delivery: tagged decoder B accepts iff exactly one tag, equal to B's registered number (independent table), over a body B's untagged decoder accepts (and the bytes are CBOR for coset's own Value decoder), with the same value; untagged decoders reject every tagged delivery; plus the wire monitor to_tagged_vec == head(6, REG) || to_vec. Non-trivial = body of at least 2 bytes; distinct = distinct body byte strings (64-bit hash).",
+            rule: "Each run is one simulated message body of a taggable type (valid, of another taggable type's shape, with an element dropped/added, or with one corrupted byte after the array head). The body is delivered with every tag prefix of the palette - none, each of ~230 tag numbers (0..=127, the six registered ones and neighbours, all 64 one-bit flips of the own tag, numbers derived from it by shifting / adding / truncation patterns, 55799, 2^32, 2^64-1, plus 16 seeded numbers of every magnitude per run) at its minimal head width, the 8-byte width and one further width (every width for the registered numbers and their neighbours), and ~140 double tags (every palette number over and under the own tag) - to ALL six tagged decoders and (a representative subset: registered tags in every width, well-known other tags, registered double tags, malformed heads) to ALL six untagged decoders. evaluations = deliveries. Oracle per delivery: tagged decoder B accepts iff exactly one tag, equal to B's registered number (independent table), over a body B's untagged decoder accepts (and the bytes are CBOR for coset's own Value decoder), with the same value; untagged decoders reject every tagged delivery; plus the wire monitor to_tagged_vec == head(6, REG) || to_vec. Non-trivial = body of at least 2 bytes; distinct = distinct body byte strings (64-bit hash).",
             distinct_classes: &["(endpoint, delivery kind, outcome) triples", "(body type, body kind) pairs"],
             assumptions: &[
                 "exhaustive over the tag palette x head widths x 12 endpoints per message; sampled over message bodies",
@@ -103,13 +165,13 @@ impl Engine for C14 {
             ],
             real_components: &["from_tagged_slice / from_slice / to_tagged_vec / to_vec of the six taggable coset types; ciborium underneath"],
             stub_components: &["originators (harness generators + harness CBOR writer)", "wire (tag-head rewriting, misdelivery)"],
-            fault_kinds: &["misdeliver(all 12 endpoints)", "tag-rewrite(number x width)", "own-tag(wide head)", "double-tag", "untagged"],
+            fault_kinds: &["misdeliver(all 12 endpoints)", "tag-rewrite(number x width)", "own-tag(wide head)", "double-tag", "malformed-head (reserved additional info, wrong major type)", "untagged"],
             design_ref: "DESIGN.md section 5.4",
         }
     }
     fn runs(&self, tier: Tier) -> u64 {
         match tier {
-            Tier::Quick => 20_000,
+            Tier::Quick => 8_000,
             Tier::Thorough => 400_000,
         }
     }
@@ -154,6 +216,9 @@ impl Engine for C14 {
         t.set_meta("type", ty);
         t.set_meta("body", kname);
         t.push(Step::new("msg", "body", vec![Arg::B(body)]));
+        // 16 seeded tag numbers of every magnitude on top of the fixed palette
+        let extra: Vec<Arg> = (0..16).map(|_| Arg::I((rng.next_u64() >> rng.below(64)) as i128)).collect();
+        t.push(Step::new("tags", "extra", extra));
         t
     }
     fn step_is_fixed(&self, _t: &Trace, _idx: usize) -> bool {
@@ -242,7 +307,11 @@ impl Engine for C14 {
             }
             v
         };
-        let all = deliveries(own);
+        let extra: Vec<u64> = match t.steps.iter().find(|s| s.kind == "tags") {
+            Some(st) => (0..st.args.len()).map(|i| st.u64(i)).collect::<HResult<Vec<u64>>>()?,
+            None => vec![],
+        };
+        let all = deliveries(own, &extra);
         let narrowed = |ep: &Endpoint, d: &Delivery| -> Trace {
             let mut n = t.clone();
             n.steps.retain(|s| s.kind != "fault");
@@ -260,8 +329,8 @@ impl Engine for C14 {
             let value_ok = matches!(guarded(|| coset::cbor::value::Value::from_slice(&bytes)), Ok(Ok(_)));
             for (form, eps) in [(Form::Tagged, &tagged_eps), (Form::Untagged, &untagged_eps)] {
                 for (i, ep) in eps.iter().enumerate() {
-                    if form == Form::Untagged && d.tags.is_empty() {
-                        continue; // the baseline
+                    if form == Form::Untagged && (d.prefix.is_empty() || !d.for_untagged()) {
+                        continue; // the baseline / not in the untagged subset
                     }
                     if !only.is_empty() && !only.iter().any(|(e, p, tg)| e == ep.name && *p == d.prefix && *tg == d.tags) {
                         continue;
@@ -308,6 +377,8 @@ impl Engine for C14 {
                         (Ok(_), false) => {
                             let why = if form == Form::Untagged {
                                 "an untagged decoder accepted a tagged item"
+                            } else if d.tags.is_empty() && !d.prefix.is_empty() {
+                                "a tagged decoder accepted a malformed tag head"
                             } else if d.tags.is_empty() {
                                 "a tagged decoder accepted an untagged item"
                             } else if d.tags.len() > 1 {
